@@ -56,6 +56,11 @@ func init() {
 		Rule: "units = every subset of {a,b,c,n,zz} as `required` of an object with properties a:integer, b:[string,null], c:integer with default, n:nested object with its own required key (zz undeclared) x 9 container contexts (root, property, array item, definition, items of an array definition, 3 allOf shapes incl. a required-only branch and a $ref branch, anyOf); documents = every assignment of absent/present/null to the keys (108 per unit, 180 for anyOf). distinct_nontrivial = distinct (unit, document) pairs with a definite reference verdict"}
 }
 
+func init() {
+	families["C03"] = &rt.Family{Prop: "C03", Module: "MC_C03", PackSize: 8,
+		Rule: "units = 14 typed position kinds (string, integer, number, boolean, array of integer, object, 5 string formats, 3 non-string types carrying a string format) x nullable x 7 contexts (required/optional property, array item depth 1/2, definition, nested property, typed additionalProperties value); documents = 21 JSON value shapes of every type (null, booleans, integral and non-integral numbers, plain and format strings, arrays, objects) at the position. distinct_nontrivial = distinct (unit, document) pairs with a definite reference verdict"}
+}
+
 func hasMult(u *rt.Unit) bool {
 	b := fmt.Sprint(u.Raw["schema"], u.Raw["defs"])
 	return containsStr(b, "multipleOf")
